@@ -392,6 +392,7 @@ class Lib:
     def record_yield(self, st, v, line):
         eng = self.eng
         if st.out is None:
+            self.ext.record_yield(st, v, line)
             return
         if isinstance(v, (VU, VNone, VFunc)):
             st.out = eng.list_append(st, st.out, v)
@@ -832,6 +833,8 @@ class Lib:
         v = self.eng.eval(st, node.args[0])
         if isinstance(v, VOpt):
             return v.val
+        if isinstance(v, VNone):
+            return VInt(0)
         return v
 
     def sp_stream(self, st, node):
@@ -1166,7 +1169,10 @@ class Lib:
                            z3.And(callee_m >= 0, callee_m < caller_m), None)
             term = eng.spec_eval(st, summ["result"])
             S = st.fresh("S_" + fc.method_name, sm.STREAM)
-            st.assume(z3.Implies(z3.Not(sm.FAILS(S)), S == term.t))
+            if summ.get("exact"):
+                st.assume(S == term.t)
+            else:
+                st.assume(z3.Implies(z3.Not(sm.FAILS(S)), S == term.t))
             for txt in summ.get("normal", []):
                 st.assume(z3.Implies(z3.Not(sm.FAILS(S)),
                                      eng.spec_bool(st, txt)))
@@ -1591,6 +1597,12 @@ class Lib:
         it = self._iter_arg(st, node)
         i = eng.eval(st, node.args[1])
         return VU(it.seq[i.t])
+
+    def sp_forstream(self, st, node):
+        v = st.ghost.get("__forstream")
+        if v is None:
+            raise self.E.Unsupported("no stream-iterating loop")
+        return v
 
     def sp_srcstream(self, st, node):
         it = self._iter_arg(st, node)
